@@ -240,24 +240,25 @@ let judge _name ins outs =
           (String.map (fun c -> if c = ' ' then '_' else c) want)
           (String.map (fun c -> if c = ' ' then '_' else c) as_orig) like_orig in
       if err = "PANIC" then VPropfail ("no_panic", detail "Proxy-panicked")
-      else if s.trig && not (blocks s Cl) && not (blocks s Sv) then begin
+      else if c10_applicable s then begin
         (* a session-ending event has happened and no write is held up by a peer that stopped reading
-           (the hypotheses of C10_returns): the oracle must hold of the observation *)
-        let o = { o_returned = fin; o_upstream_eof = (eof = "1" || eof = "-"); o_goroutines = nat_of_int total } in
-        if c10_ok o then begin
-          if bits fl <> ret then VDisagree (detail "per-op-return-flags-differ-from-model")
-          else VOk true
-        end else begin
-          let has k = List.exists (fun (n, c) -> n = k && c > 0) g in
-          if not fin then begin
-            if has "REMIT" || has "RLOCK" then
-              VPropfail ("no_blocked_goroutine", detail "Proxy-did-not-return:a-reader-is-blocked-sending-into-the-output-channel-of-a-direction-whose-writer-has-gone(holding-flowMu)")
-            else VPropfail ("returns", detail "Proxy-did-not-return-within-T-after-a-session-ending-event")
-          end
-          else if not (eof = "1" || eof = "-") then
+           (C10_applicable_iff: the hypotheses of C10_returns): the extracted verdict decides
+           (C10_verdict_ok_iff / C10_verdict_propfail_sound) *)
+        let count nm = List.fold_left (fun a (n, c) -> if n = nm then a + c else a) 0 g in
+        let known = List.fold_left (fun a nm -> a + count nm) 0 names in
+        let census = List.map (fun nm -> nat_of_int (count nm + (if nm = "ROTHER" then total - known else 0))) names in
+        let raw = { r_fin = fin; r_eof = (if eof = "-" then None else Some (eof = "1")); r_census = census } in
+        match c10_verdict raw with
+        | None ->
+            if bits fl <> ret then VDisagree (detail "per-op-return-flags-differ-from-model")
+            else VOk true
+        | Some CReturns -> VPropfail ("returns", detail "Proxy-did-not-return-within-T-after-a-session-ending-event")
+        | Some CUpstreamClosed ->
             VPropfail ("upstream_closed", detail "Proxy-returned-but-the-upstream-connection-it-dialled-was-not-closed(server-saw-no-EOF)")
-          else VPropfail ("no_blocked_goroutine", detail "Proxy-returned-but-session-goroutines-remain")
-        end
+        | Some CNoBlockedGoroutine ->
+            if not fin then
+              VPropfail ("no_blocked_goroutine", detail "Proxy-did-not-return:a-reader-is-blocked-sending-into-the-output-channel-of-a-direction-whose-writer-has-gone(holding-flowMu)")
+            else VPropfail ("no_blocked_goroutine", detail "Proxy-returned-but-session-goroutines-remain")
       end else begin
         (* nothing has ended the session, or a peer that stopped reading still holds a write up:
            the property is silent; the relay must behave as the model *)
